@@ -84,6 +84,51 @@ theorem neighbors_exact_real (s : Shape) (c : Ctr) (r : ℝ) (v : Vox) :
     omega
   rw [mem_neighborsAlgo, ← sqDist_cast, ← distLt_iff_sqrt _ hk, distLt_iff]
 
+/-! ### 1b. order structure of searchlights (session 3) -/
+
+/-- a larger radius never loses a voxel: for every shape, centre and radii `r ≤ r'` the
+    searchlight of radius `r` is contained in the one of radius `r'` -/
+theorem neighbors_mono_radius (s : Shape) (c : Ctr) (r r' : K) (h : r ≤ r') (v : Vox) :
+    v ∈ neighborsAlgo s c r → v ∈ neighborsAlgo s c r' := by
+  rw [mem_neighborsAlgo, mem_neighborsAlgo]
+  rintro ⟨hv, h0, hd⟩
+  refine ⟨hv, lt_of_lt_of_le h0 h, lt_of_lt_of_le hd ?_⟩
+  exact mul_le_mul h h (le_of_lt h0) (le_trans (le_of_lt h0) h)
+
+/-- hence the searchlight sizes are monotone in the radius -/
+theorem neighbors_length_mono (s : Shape) (c : Ctr) (r r' : K) (h : r ≤ r') :
+    (neighborsAlgo s c r).length ≤ (neighborsAlgo s c r').length := by
+  have hsub : (neighborsAlgo s c r) ⊆ (neighborsAlgo s c r') :=
+    fun v hv => neighbors_mono_radius s c r r' h v hv
+  exact ((neighborsAlgo_nodup s c r).subperm hsub).length_le
+
+/-- the squared distance is symmetric in its two voxels -/
+theorem sqDist_symm (v w : Vox) : sqDist v (ctrOf w) = sqDist w (ctrOf v) := by
+  simp only [sqDist, ctrOf]; ring
+
+/-- searchlight membership is symmetric between in-volume voxels: `v` lies in the searchlight
+    centred on `w` iff `w` lies in the one centred on `v` (same radius) -/
+theorem neighbors_symm (s : Shape) (v w : Vox) (hv : InVol s v) (hw : InVol s w) (r : K) :
+    v ∈ neighborsAlgo s (ctrOf w) r ↔ w ∈ neighborsAlgo s (ctrOf v) r := by
+  rw [mem_neighborsAlgo, mem_neighborsAlgo, sqDist_symm]
+  exact ⟨fun h => ⟨hw, h.2⟩, fun h => ⟨hv, h.2⟩⟩
+
+/-- a non-positive radius gives the empty searchlight, for every centre -/
+theorem nonpos_radius_empty (s : Shape) (c : Ctr) (r : K) (h : r ≤ 0) :
+    neighborsAlgo s c r = [] := by
+  apply List.eq_nil_iff_forall_not_mem.mpr
+  intro v hv
+  rw [mem_neighborsAlgo] at hv
+  exact absurd hv.2.1 (not_lt.mpr h)
+
+/-- a searchlight never holds more voxels than the volume -/
+theorem neighbors_length_le_size (s : Shape) (c : Ctr) (r : K) :
+    (neighborsAlgo s c r).length ≤ size s := by
+  have hp := (neighborsAlgo_perm_spec s c r).length_eq
+  rw [hp]
+  unfold neighborsSpec
+  exact le_trans (List.length_filter_le _ _) (by simp [allVoxels])
+
 /-! ### 2. linear indices -/
 
 /-- `ravel_multi_index` is injective on the volume, lands in `range (size s)` and is
